@@ -35,7 +35,8 @@ func init() {
 		"(*math/big.Int).Sign":      bigSign,
 		"(*math/big.Int).IsUint64":  bigIsUint64,
 		"(*math/big.Int).String":    func(in *Interp, fn *ssa.Function, a []Value) Value { return strFromGo("<big>") },
-		"(*math/big.Int).BitLen":    nil,
+		"(*math/big.Int).BitLen":    bigBitLen,
+		"(*math/big.Int).FillBytes": bigFillBytes,
 
 		// ---- errors / fmt ----
 		"errors.Is":   errorsIs,
@@ -138,7 +139,6 @@ func init() {
 		"(*sync/atomic.Value).Load":        atomicValueLoad,
 		"(*sync/atomic.Value).Store":       atomicValueStore,
 	}
-	delete(intrinsics, "(*math/big.Int).BitLen")
 }
 
 func sliceBytes(s Slice) []BV {
@@ -169,8 +169,29 @@ func (in *Interp) signedInt(x BV) *Term {
 	return in.tc.Ite(neg, in.tc.IntBin("-", n, in.tc.IntConst(two)), n)
 }
 
+// signedMagBytes is the eight big-endian bytes of |x| for a signed machine word x (nil when x is
+// concrete): with them Bytes(), Uint64() and BitLen() of a word-derived big.Int stay in the
+// bit-vector theory instead of going through Int division.
+func (in *Interp) signedMagBytes(x BV) []BV {
+	x = in.resolveBV(x)
+	if x.T == nil {
+		return nil
+	}
+	t := x.T
+	if x.W < 64 {
+		t = in.tc.SExt(t, 64)
+	}
+	neg := in.tc.BVCmp("bvslt", t, in.tc.BVConst(64, 0))
+	mag := in.tc.Ite(neg, in.tc.BVNeg(t), t)
+	bs := make([]BV, 8)
+	for i := 0; i < 8; i++ {
+		bs[i] = in.mkBV(in.tc.Extract(63-8*i, 56-8*i, mag))
+	}
+	return bs
+}
+
 func bigNewInt(in *Interp, fn *ssa.Function, a []Value) Value {
-	return in.newBig(Big{T: in.signedInt(a[0].(BV))})
+	return in.newBig(Big{T: in.signedInt(a[0].(BV)), FromBytes: in.signedMagBytes(a[0].(BV))})
 }
 
 func (in *Interp) bigRecv(v Value) *Value {
@@ -275,6 +296,49 @@ func bigBytes(in *Interp, fn *ssa.Function, a []Value) Value {
 	}}
 }
 
+// bigBitLen: the bit length of |x| (0 for 0), from the forced magnitude bytes.
+func bigBitLen(in *Interp, fn *ssa.Function, a []Value) Value {
+	bs := sliceBytes(force(bigBytes(in, fn, a)).(Slice))
+	if len(bs) == 0 {
+		return concBV(64, 0)
+	}
+	top := in.resolveBV(bs[0])
+	base := uint64(8 * (len(bs) - 1))
+	if top.T == nil {
+		n := uint64(0)
+		for v := top.C; v != 0; v >>= 1 {
+			n++
+		}
+		return concBV(64, base+n)
+	}
+	// the leading byte of the magnitude is non-zero: its length is 1 + index of its highest set bit
+	t := in.tc.BVConst(64, base+1)
+	for bit := 1; bit < 8; bit++ {
+		set := in.tc.Eq(in.tc.Extract(bit, bit, top.T), in.tc.BVConst(1, 1))
+		t = in.tc.Ite(set, in.tc.BVConst(64, base+uint64(bit)+1), t)
+	}
+	return in.mkBV(t)
+}
+
+// bigFillBytes: buf is zeroed and |x| written right-aligned; panics when it does not fit.
+func bigFillBytes(in *Interp, fn *ssa.Function, a []Value) Value {
+	bs := sliceBytes(force(bigBytes(in, fn, a[:1])).(Slice))
+	buf := force(a[1]).(Slice)
+	if len(bs) > len(buf.A) {
+		in.goPanic("math/big: buffer too small to fit value")
+	}
+	off := len(buf.A) - len(bs)
+	for i := range buf.A {
+		in.onWrite(&buf.A[i])
+		if i < off {
+			buf.A[i] = concBV(8, 0)
+		} else {
+			buf.A[i] = bs[i-off]
+		}
+	}
+	return buf
+}
+
 func (in *Interp) assumeFeasible(c *Term) {
 	if c.IsConst() {
 		if c.CU == 0 {
@@ -369,7 +433,7 @@ func bigSetUint64(in *Interp, fn *ssa.Function, a []Value) Value {
 func bigSetInt64(in *Interp, fn *ssa.Function, a []Value) Value {
 	z := in.bigRecv(a[0])
 	in.onWrite(z)
-	*z = Big{T: in.signedInt(a[1].(BV))}
+	*z = Big{T: in.signedInt(a[1].(BV)), FromBytes: in.signedMagBytes(a[1].(BV))}
 	return z
 }
 
